@@ -360,9 +360,14 @@ def _prepare_body(h, call, is_method, recv_name, caller, cnt):
     arg_names = set()
     for v in subst.values():
         arg_names |= _names(v)
+    own_loads = {n.id for n in ast.walk(caller) if isinstance(n, ast.Name) and isinstance(n.ctx, ast.Load) and not hasattr(n, "_inl")}
+    own_loads |= {x.arg for x in caller.args.args + caller.args.kwonlyargs}
     mapping = {}
     for l in sorted(locals_):
-        if l in caller_names or l in arg_names:
+        # a helper local is always defined before it is used, so it can keep a
+        # name that the caller itself never reads (e.g. a name introduced by an
+        # earlier inlining of the same helper)
+        if (l in caller_names and l in own_loads) or l in arg_names:
             # the same name on both sides: keep it only when the caller's own
             # variable of that name is the target of this very call
             mapping[l] = f"{l}__{h.name.strip('_')}"
@@ -446,6 +451,7 @@ def _inline_stmt(s, caller, env, cnt):
                         e = _lower_expr(clone(_body_wo_doc(h)), subst)
                         _relocate(e, line, cnt, h.name)
                         s.value = e
+                        s._inl = (h.name, line)
                         cnt.stats["expr_helpers_inlined"] += 1
                         return [s]
                 except NotInlinable:
@@ -540,6 +546,51 @@ def _replace_node(root, old, new):
 
 
 # ---------------------------------------------------------------------------
+PURE_METHODS = set()    # names of package functions / methods that are pure (set by the loader)
+
+
+def compute_pure_names(trees):
+    """names n such that every function called n in the package only computes
+    and returns a value (no stores to attributes / subscripts, no calls other
+    than pure ones)"""
+    defs = {}
+    for t in trees:
+        for n in ast.walk(t):
+            if isinstance(n, ast.FunctionDef):
+                defs.setdefault(n.name, []).append(n)
+    pure = set()
+
+    def fn_pure(fn):
+        if any(isinstance(d, ast.Attribute) and d.attr == "setter" for d in fn.decorator_list):
+            return False
+        for s_ in _body_wo_doc(fn):
+            for n in ast.walk(s_):
+                if isinstance(n, (ast.Assign, ast.AugAssign, ast.AnnAssign)):
+                    tg = n.targets if isinstance(n, ast.Assign) else [n.target]
+                    for t_ in tg:
+                        for x in ast.walk(t_):
+                            if isinstance(x, (ast.Attribute, ast.Subscript)) and isinstance(x.ctx, ast.Store):
+                                return False
+                if isinstance(n, (ast.Global, ast.Nonlocal, ast.Yield, ast.YieldFrom, ast.Delete, ast.With, ast.Try, ast.Raise, ast.While, ast.For, ast.Import, ast.ImportFrom, ast.FunctionDef)) and n is not fn:
+                    if isinstance(n, ast.Raise):
+                        continue     # raising on invalid input is not a side effect on the state
+                    return False
+            for n in ast.walk(s_):
+                if isinstance(n, ast.Call) and not _pure(n, allow_alloc=True):
+                    return False
+        return True
+    for _ in range(4):
+        PURE_METHODS.clear()
+        PURE_METHODS.update(pure)
+        new = {name for name, fs in defs.items() if not name.startswith("__") and all(fn_pure(f) for f in fs)}
+        if new == pure:
+            break
+        pure = new
+    PURE_METHODS.clear()
+    PURE_METHODS.update(pure)
+    return pure
+
+
 def _pure(e, allow_alloc=False):
     """expression without side effects (calls only to a whitelist)"""
     for n in ast.walk(e):
@@ -548,7 +599,7 @@ def _pure(e, allow_alloc=False):
         if isinstance(n, ast.Call):
             fn = n.func
             if isinstance(fn, ast.Name):
-                if fn.id not in PURE_FUNCS:
+                if fn.id not in PURE_FUNCS and fn.id not in PURE_METHODS:
                     return False
             elif isinstance(fn, ast.Attribute):
                 root = fn
@@ -561,6 +612,8 @@ def _pure(e, allow_alloc=False):
                         return False
                 elif fn.attr == "get" and len(n.args) in (1, 2):
                     pass      # mapping read
+                elif fn.attr in PURE_METHODS and fn.attr not in MUTATORS:
+                    pass      # a pure method of the analysed package
                 else:
                     return False
             else:
@@ -773,7 +826,15 @@ def _forward_subst(fnode, unknown, cnt):
                     ok = False
                     continue
                 E = D.value
-                if not _pure(E, allow_alloc=False) or u in _names(E):
+                single_use_only = False
+                if not _pure(E, allow_alloc=False):
+                    # a freshly allocated value may be substituted into its only use
+                    if _pure(E, allow_alloc=True):
+                        single_use_only = True
+                    else:
+                        ok = False
+                        continue
+                if u in _names(E):
                     ok = False
                     continue
                 uses = []
@@ -806,7 +867,11 @@ def _forward_subst(fnode, unknown, cnt):
                             for k in range(j + 1, len(block)):
                                 if _loads_of(block[k], u):
                                     ok = False
+                                if not isinstance(block[k], (ast.If, ast.For, ast.While, ast.Try, ast.With)) and u in _stores_of(block[k])[0]:
+                                    break      # unconditionally redefined: later loads read that definition
                         break
+                if single_use_only and len(uses) != 1:
+                    ok = False
                 plans.append((block, D, E, uses))
                 covered |= {id(x) for x in uses}
         # stores in compound statements that we did not see as definitions
@@ -906,7 +971,314 @@ def _unroll_literal_loops(fnode, unknown, cnt):
     return changed
 
 
-def _normalize_locals(fnode, known_locals, self_name, cnt):
+def _first_defs(fnode):
+    out = {}
+    for n in ast.walk(fnode):
+        if isinstance(n, ast.Assign) and len(n.targets) == 1:
+            t = n.targets[0]
+            ln = getattr(n, "lineno", 0)
+            if isinstance(t, ast.Name):
+                if t.id not in out or out[t.id][0] > ln:
+                    out[t.id] = (ln, n.value)
+            elif isinstance(t, (ast.Tuple, ast.List)) and isinstance(n.value, (ast.Tuple, ast.List)) and len(t.elts) == len(n.value.elts):
+                for a, b in zip(t.elts, n.value.elts):
+                    if isinstance(a, ast.Name) and (a.id not in out or out[a.id][0] > ln):
+                        out[a.id] = (ln, b)
+            elif isinstance(t, (ast.Tuple, ast.List)) and isinstance(n.value, ast.Call):
+                for i, a in enumerate(t.elts):
+                    if isinstance(a, ast.Name) and (a.id not in out or out[a.id][0] > ln):
+                        out[a.id] = (ln, ast.Subscript(value=n.value, slice=ast.Constant(i), ctx=ast.Load()))
+    return {k: v[1] for k, v in out.items()}
+
+
+def _unpack_subscripted(fnode, unknown, tuple_sizes, cnt):
+    """T6: u = f(..) with u only ever read as u[0], u[1], .. (f returns a
+    tuple of known size) -> u__0, u__1 = f(..)"""
+    for block in _all_blocks(fnode):
+        for D in block:
+            if not (isinstance(D, ast.Assign) and len(D.targets) == 1 and isinstance(D.targets[0], ast.Name) and D.targets[0].id in unknown and isinstance(D.value, ast.Call)):
+                continue
+            u = D.targets[0].id
+            fn = D.value.func
+            size = tuple_sizes.get(fn.id) if isinstance(fn, ast.Name) else (tuple_sizes.get(fn.attr) if isinstance(fn, ast.Attribute) else None)
+            if not size:
+                continue
+            if sum(1 for n in ast.walk(fnode) if isinstance(n, ast.Name) and n.id == u and isinstance(n.ctx, (ast.Store, ast.Del))) != 1:
+                continue
+            subs = []
+            okk = True
+            for n in ast.walk(fnode):
+                if isinstance(n, ast.Subscript) and isinstance(n.value, ast.Name) and n.value.id == u:
+                    if isinstance(n.slice, ast.Constant) and isinstance(n.slice.value, int) and 0 <= n.slice.value < size and isinstance(n.ctx, ast.Load):
+                        subs.append(n)
+                    else:
+                        okk = False
+            n_loads = sum(1 for n in ast.walk(fnode) if isinstance(n, ast.Name) and n.id == u and isinstance(n.ctx, ast.Load))
+            if not okk or n_loads != len(subs) or not subs:
+                continue
+            names = [f"{u}__{i}" for i in range(size)]
+            D.targets = [ast.Tuple(elts=[ast.Name(id=x, ctx=ast.Store()) for x in names], ctx=ast.Store())]
+            for n in subs:
+                _replace_node(fnode, n, ast.copy_location(ast.Name(id=names[n.slice.value], ctx=ast.Load()), n))
+            cnt.stats["tuples_unpacked"] = cnt.stats.get("tuples_unpacked", 0) + 1
+            return True
+    return False
+
+
+def _restore_names(fnode, known_locals, ref_defs, cnt):
+    """a local of the reference tree that has disappeared, and an unknown local
+    whose first definition is textually the reference definition of the
+    former: the variable was renamed - rename it back"""
+    for _ in range(6):
+        present = _names(fnode) | {a.arg for a in fnode.args.args + fnode.args.kwonlyargs}
+        stores = {n.id for n in ast.walk(fnode) if isinstance(n, ast.Name) and isinstance(n.ctx, ast.Store)}
+        unknown = stores - set(known_locals)
+        missing = [k for k in known_locals if k not in present and k in ref_defs]
+        if not unknown or not missing:
+            return
+        cur = _first_defs(fnode)
+        by_text = {}
+        for u in unknown:
+            if u in cur:
+                by_text.setdefault(ast.unparse(cur[u]), []).append(u)
+        ref_by_text = {}
+        for k in missing:
+            ref_by_text.setdefault(ref_defs[k], []).append(k)
+        done = False
+        for text, us in by_text.items():
+            ks = ref_by_text.get(text, [])
+            if len(us) == 1 and len(ks) == 1:
+                _rename(fnode, {us[0]: ks[0]})
+                cnt.stats["names_restored"] = cnt.stats.get("names_restored", 0) + 1
+                done = True
+        if not done:
+            return
+    return
+
+
+def _tidy_ifs(fnode):
+    """`if c: pass else: X` -> `if not c: X` (double negations removed)"""
+    for n in ast.walk(fnode):
+        if isinstance(n, ast.If) and n.orelse and all(isinstance(b, ast.Pass) for b in n.body):
+            t = n.test
+            if isinstance(t, ast.UnaryOp) and isinstance(t.op, ast.Not):
+                n.test = t.operand
+            else:
+                n.test = ast.copy_location(ast.UnaryOp(op=ast.Not(), operand=t), t)
+            n.body, n.orelse = n.orelse, []
+
+
+def _drop_self_assigns(fnode):
+    for block in _all_blocks(fnode):
+        for s_ in list(block):
+            if isinstance(s_, ast.Assign) and len(s_.targets) == 1 and isinstance(s_.targets[0], ast.Name) and isinstance(s_.value, ast.Name) and s_.value.id == s_.targets[0].id:
+                block.remove(s_)
+                if not block:
+                    block.append(ast.copy_location(ast.Pass(), s_))
+
+
+def _split_ranges(fnode, unknown, cnt):
+    """an unknown local that is rebound several times in one straight-line
+    block (e.g. the same helper inlined twice) is split into one variable per
+    definition"""
+    for u in sorted(unknown):
+        if "__r" in u:
+            continue
+        homes = []
+        for block in _all_blocks(fnode):
+            idx = [i for i, S in enumerate(block) if not isinstance(S, (ast.If, ast.For, ast.While, ast.Try, ast.With, ast.FunctionDef))
+                   and isinstance(S, ast.Assign) and len(S.targets) == 1 and isinstance(S.targets[0], ast.Name) and S.targets[0].id == u]
+            if idx:
+                homes.append((block, idx))
+        n_stores = sum(1 for n in ast.walk(fnode) if isinstance(n, ast.Name) and n.id == u and isinstance(n.ctx, (ast.Store, ast.Del)))
+        if len(homes) != 1 or len(homes[0][1]) < 2 or n_stores != len(homes[0][1]):
+            continue
+        block, idx = homes[0]
+        inside = set()
+        for S in block[idx[0]:]:
+            inside |= {id(n) for n in ast.walk(S)}
+        if any(isinstance(n, ast.Name) and n.id == u and id(n) not in inside for n in ast.walk(fnode)):
+            continue      # used outside the straight line
+        for k, i in enumerate(idx):
+            new = f"{u}__r{k}"
+            end = idx[k + 1] if k + 1 < len(idx) else len(block)
+            block[i].targets[0].id = new
+            for S in block[i + 1:end]:
+                _rename(S, {u: new})
+            if k + 1 < len(idx):
+                _rename(block[end].value, {u: new})
+        cnt.stats["ranges_split"] = cnt.stats.get("ranges_split", 0) + 1
+        return True
+    return False
+
+
+def _invariant_subst(fnode, unknown, cnt):
+    """T7: u is (re)assigned the same pure expression E right after every
+    assignment of E's operands: u == E is an invariant, so u is E."""
+    for u in sorted(unknown):
+        defs = []
+        ok = True
+        for block in _all_blocks(fnode):
+            for i, D in enumerate(block):
+                if isinstance(D, (ast.If, ast.For, ast.While, ast.Try, ast.With, ast.FunctionDef)):
+                    if isinstance(D, ast.For) and u in _names(D.target):
+                        ok = False
+                    continue
+                if u in _names(D, (ast.Store, ast.Del)):
+                    if isinstance(D, ast.Assign) and len(D.targets) == 1 and isinstance(D.targets[0], ast.Name):
+                        defs.append((block, i, D))
+                    else:
+                        ok = False
+        if not ok or len(defs) < 2:
+            continue
+        texts = {ast.unparse(D.value) for _, _, D in defs}
+        if len(texts) != 1:
+            continue
+        E = defs[0][2].value
+        if not _pure(E, allow_alloc=False) or u in _names(E):
+            continue
+        ops = _names(E) - {"np", "numpy"}
+        if not ops:
+            continue
+        # every store to an operand is followed (same block, only operand
+        # stores in between) by a definition of u
+        def_ids = {id(D) for _, _, D in defs}
+        good = True
+        for block in _all_blocks(fnode):
+            for i, S in enumerate(block):
+                if isinstance(S, (ast.If, ast.While, ast.Try, ast.With, ast.FunctionDef)):
+                    continue
+                if isinstance(S, ast.For):
+                    if ops & _names(S.target):
+                        good = False
+                    continue
+                if id(S) in def_ids:
+                    continue
+                if ops & _stores_of(S)[0]:
+                    j = i + 1
+                    while j < len(block) and id(block[j]) not in def_ids and not isinstance(block[j], (ast.If, ast.For, ast.While, ast.Try, ast.With)) and (ops & _stores_of(block[j])[0]) and not (_names(block[j], ast.Load) & {u}):
+                        j += 1
+                    if not (j < len(block) and id(block[j]) in def_ids):
+                        good = False
+        params = {a.arg for a in fnode.args.args + fnode.args.kwonlyargs}
+        first = min(getattr(D, "lineno", 0) for _, _, D in defs)
+        loads = [n for n in ast.walk(fnode) if isinstance(n, ast.Name) and n.id == u and isinstance(n.ctx, ast.Load)]
+        if not good or any(getattr(n, "lineno", 0) < first for n in loads):
+            continue
+        # operands that are parameters may be rebound only with a following definition (checked above)
+        for n in loads:
+            ne = clone(E)
+            for x in ast.walk(ne):
+                if hasattr(x, "lineno"):
+                    x.lineno = getattr(n, "lineno", x.lineno)
+                    x.end_lineno = getattr(n, "end_lineno", x.lineno)
+                    x.col_offset = getattr(n, "col_offset", 0)
+                    x.end_col_offset = getattr(n, "end_col_offset", 0)
+            _replace_node(fnode, n, ne)
+        for block, _, D in defs:
+            block.remove(D)
+            if not block:
+                block.append(ast.copy_location(ast.Pass(), D))
+        cnt.stats["locals_substituted"] += 1
+        return True
+    return False
+
+
+def _alias_rename(fnode, unknown, known_locals, cnt):
+    """T5: the known local t is only ever bound by `t = u` (u unknown), u is
+    not rebound after such a statement: t and u always denote the same object,
+    so u is t under another name."""
+    stores = {}
+    for n in ast.walk(fnode):
+        if isinstance(n, ast.Name) and isinstance(n.ctx, (ast.Store, ast.Del)):
+            stores.setdefault(n.id, []).append(n)
+    aliases = {}
+    for n in ast.walk(fnode):
+        if isinstance(n, ast.Assign) and len(n.targets) == 1 and isinstance(n.targets[0], ast.Name) and isinstance(n.value, ast.Name) and n.value.id in unknown and n.targets[0].id in known_locals:
+            aliases.setdefault((n.targets[0].id, n.value.id), []).append(n)
+    params = {a.arg for a in fnode.args.args + fnode.args.kwonlyargs}
+    for (t, u), stmts in aliases.items():
+        if t in params or len(stores.get(t, [])) != len(stmts):
+            continue
+        first_alias = min(getattr(x, "lineno", 0) for x in stmts)
+        if any(getattr(x, "lineno", 0) >= first_alias for x in stores.get(u, [])):
+            continue
+        if any(isinstance(x, ast.Name) and x.id == t and isinstance(x.ctx, ast.Load) and getattr(x, "lineno", 0) < first_alias for x in ast.walk(fnode)):
+            continue
+        _rename(fnode, {u: t})
+        _drop_self_assigns(fnode)
+        _tidy_ifs(fnode)
+        cnt.stats["names_restored"] = cnt.stats.get("names_restored", 0) + 1
+        return True
+    return False
+
+
+def _alias_collapse(fnode, unknown, cnt):
+    """T4: u = E ; ... ; t = u   (u unknown; every read of u has this form and
+    t is untouched in between)  ->  t = E ; ..."""
+    loads = {}
+    nstores = {}
+    for n in ast.walk(fnode):
+        if isinstance(n, ast.Name) and n.id in unknown:
+            if isinstance(n.ctx, ast.Load):
+                loads.setdefault(n.id, []).append(n)
+            else:
+                nstores[n.id] = nstores.get(n.id, 0) + 1
+    plans = {}
+    for block in _all_blocks(fnode):
+        for i, D in enumerate(block):
+            if not (isinstance(D, ast.Assign) and len(D.targets) == 1 and isinstance(D.targets[0], ast.Name) and D.targets[0].id in unknown):
+                continue
+            u = D.targets[0].id
+            for j in range(i + 1, len(block)):
+                S = block[j]
+                if u not in _names(S):
+                    continue
+                if isinstance(S, ast.Assign) and len(S.targets) == 1 and isinstance(S.targets[0], ast.Name) and isinstance(S.value, ast.Name) and S.value.id == u:
+                    t = S.targets[0].id
+                    between = block[i + 1:j]
+                    if not any(t in _names(b) for b in between) and t not in _names(D.value) | {u}:
+                        # (every read of u is accounted for by exactly one plan, see below)
+                        plans.setdefault(u, []).append((block, D, S, t))
+                break
+    for u, ps in plans.items():
+        if len(ps) == len(loads.get(u, [])) == nstores.get(u, 0):
+            for block, D, S, t in ps:
+                D.targets[0].id = t
+                block.remove(S)
+            cnt.stats["aliases_collapsed"] = cnt.stats.get("aliases_collapsed", 0) + len(ps)
+            return True
+    return False
+
+
+TUPLE_SIZES = {}     # function name -> size of the tuple it returns (package wide)
+
+
+def compute_tuple_sizes(trees):
+    sizes = {}
+    for t in trees:
+        for fn in ast.walk(t):
+            if isinstance(fn, ast.FunctionDef):
+                rs = [n for n in ast.walk(fn) if isinstance(n, ast.Return)]
+                ks = {len(r.value.elts) if isinstance(r.value, ast.Tuple) else None for r in rs}
+                if len(ks) == 1 and None not in ks:
+                    sizes.setdefault(fn.name, set()).add(ks.pop())
+                else:
+                    sizes.setdefault(fn.name, set()).add(None)
+    TUPLE_SIZES.clear()
+    TUPLE_SIZES.update({k: next(iter(v)) for k, v in sizes.items() if len(v) == 1 and None not in v})
+
+
+def _normalize_locals(fnode, known_locals, self_name, cnt, ref_defs=None):
+    pre_unknown = {n.id for n in ast.walk(fnode) if isinstance(n, ast.Name) and isinstance(n.ctx, ast.Store)} - set(known_locals)
+    for _ in range(6):
+        if not (pre_unknown and _unpack_subscripted(fnode, pre_unknown, TUPLE_SIZES, cnt)):
+            break
+    if ref_defs:
+        before = cnt.stats.get("names_restored", 0)
+        _restore_names(fnode, known_locals, ref_defs, cnt)
+        if cnt.stats.get("names_restored", 0) != before:
+            _drop_self_assigns(fnode)
     for _ in range(24):
         assigned = set()
         comp_targets = set()
@@ -924,11 +1296,19 @@ def _normalize_locals(fnode, known_locals, self_name, cnt):
             return
         if _unroll_literal_loops(fnode, unknown, cnt):
             continue
+        if _split_ranges(fnode, unknown, cnt):
+            continue
         if _sink_after_if(fnode, unknown, cnt):
             continue
         if _field_alias(fnode, unknown, self_name, cnt):
             continue
         if _forward_subst(fnode, unknown, cnt):
+            continue
+        if _invariant_subst(fnode, unknown, cnt):
+            continue
+        if _alias_collapse(fnode, unknown, cnt):
+            continue
+        if _alias_rename(fnode, unknown, set(known_locals), cnt):
             continue
         return
 
@@ -1203,7 +1583,10 @@ def normalize_module(tree, modname):
         self_name = f.args.args[0].arg if (cname is not None and f.args.args) else None
         if key in v.get("attr_stored", {}):
             _record_idiom(f, set(v["attr_stored"][key]), cnt)
-        _normalize_locals(f, known_funcs[key], self_name, cnt)
+        try:
+            _normalize_locals(f, known_funcs[key], self_name, cnt, v.get("first_defs", {}).get(key))
+        except NotInlinable:
+            pass
     for f in post_try:
         _split_isinstance_handlers(f, cnt)
     ast.fix_missing_locations(tree)
